@@ -41,6 +41,8 @@ def cases(ctx):
                 yield "gsd", {"levels": list(levels), "reduction": red}
     for i in range(ctx.pick(160, 60000)):
         yield "gsd_generator", {"seed": ctx.subseed("gg", i)}
+    for i in range(ctx.pick(150, 30000)):
+        yield "shared_parameters", {"seed": ctx.subseed("sp", i)}
 
 
 def run_case(ctx, name, params):
@@ -196,6 +198,65 @@ def run_case(ctx, name, params):
         ctx.nontrivial(("gsd", tuple(levels), red))
         ctx.count("cases")
         ctx.sample({"generator": "gsd", "levels": levels, "reduction": red, "rows": len(rows), "first": rows[:3]}, "gsd")
+    elif name == "shared_parameters":
+        # one parameter list (as a Problem owns it) serves a sequence of different generators: what one generator does with
+        # the declared ranges must not leak into the next design
+        import collections as _c
+        r = ctx.rng("sp", params["seed"])
+        n = r.randint(3, 6)
+        bxs = gen.boxes(r, n, r.choice(["unit", "neg", "mixed", "asym"]))
+        shared = P(bxs)
+        seq = [r.choice(["bb", "pb", "ff", "ffc", "lhs", "halton", "bb"]) for _ in range(r.randint(2, 6))]
+        for step, g in enumerate(seq):
+            wit = lambda: {"sequence": seq[:step + 1], "bounds": bxs, "parameters_now": [q["bounds"] for q in shared]}
+            try:
+                if g == "bb":
+                    vecs = operators.BoxBehnkenGenerator(shared).generate()
+                elif g == "pb":
+                    vecs = operators.PlackettBurmanGenerator(shared).generate()
+                elif g in ("ff", "ffc"):
+                    o = operators.FullFactorGenerator(shared)
+                    o.init(g == "ffc")
+                    vecs = o.generate()
+                elif g == "lhs":
+                    o = operators.LHSGenerator(shared)
+                    o.init(5)
+                    vecs = o.generate()
+                else:
+                    o = operators.HaltonGenerator(shared)
+                    o.init(5)
+                    vecs = o.generate()
+            except Exception as e:
+                ctx.violation("shared_parameters/exception", "%s raised %r after %s on the same parameter list" % (g, e, seq[:step]), wit())
+                return
+            ctx.count("designs_on_shared_parameters")
+            got = _c.Counter(tuple(float(x) for x in v) for v in vecs)
+            if g == "bb":
+                mids = [(lb + ub) / 2 for lb, ub in bxs]
+                exp = _c.Counter()
+                for i, j in itertools.combinations(range(n), 2):
+                    for si in (0, 1):
+                        for sj in (0, 1):
+                            row = list(mids)
+                            row[i] = bxs[i][si]
+                            row[j] = bxs[j][sj]
+                            exp[tuple(row)] += 1
+                exp[tuple(mids)] += 1
+                ok = got == exp
+            elif g in ("ff", "ffc"):
+                lv = [[lb, (lb + ub) / 2.0, ub] if g == "ffc" else [lb, ub] for lb, ub in bxs]
+                ok = got == _c.Counter(itertools.product(*lv))
+            elif g == "pb":
+                ok = len(vecs) == 4 * (n // 4 + 1) and all(set(v[j] for v in vecs) == {bxs[j][0], bxs[j][1]} for j in range(n))
+            else:
+                ok = len(vecs) == 5 and all(bxs[j][0] - 1e-9 <= v[j] <= bxs[j][1] + 1e-9 for v in vecs for j in range(n))
+            if not ok:
+                ctx.violation("shared_parameters/%s_after_%s" % (g, seq[step - 1] if step else "nothing"),
+                              "design %s generated after %s on the same parameter list no longer has its defining structure over "
+                              "the declared bounds" % (g, seq[:step]), wit())
+                return
+        ctx.nontrivial(("sp", tuple(seq), n))
+        ctx.count("cases")
     elif name == "gsd_generator":
         r = ctx.rng("gg", params["seed"])
         nf = r.randint(2, 4)
@@ -238,3 +299,4 @@ def requirements(ctx):
     ctx.require("bb_designs", 10)
     ctx.require("gsd_complementary_families", 50)
     ctx.require("gsd_generator_designs", 10)
+    ctx.require("designs_on_shared_parameters", 100)
